@@ -78,6 +78,8 @@ func runC02(r *Run, verifDir string) {
 	c.r5NoWrite()
 	c.r6Loops()
 	c.r7Errors()
+	c.r8FailStop()
+	c.r9LengthArith()
 }
 
 func isPlanTime(fn *ssa.Function) (string, bool) {
@@ -1505,5 +1507,241 @@ func (c *c02ctx) r7Errors() {
 				r.Bad("C02.R7", key, call.Pos(), "the error of %s is dropped in %s: a malformed item is treated as decoded", id.String(), fnKey(fn))
 			}
 		})
+	}
+}
+
+// ---------------------------------------------------------------- R8
+
+// r8FailStop: a reader whose last operation failed is dead — Next() advances the buffer before
+// validating it, so after an error the accessors index an unvalidated tail. Every use of a decoder
+// that can follow a fallible call on the same decoder must be dominated by that call's err == nil edge.
+func (c *c02ctx) r8FailStop() {
+	r := c.r
+	r.Rule("C02.R8", "fail-stop: no decoder/reader call can follow a failed call on the same decoder (each fallible call's error is tested, and later uses are dominated by the err == nil edge)", 100)
+	errT := types.Universe.Lookup("error").Type()
+	isReaderRecv := func(id funcID) bool {
+		return id.pkg == ttlvPath && (id.recv == "Decoder" || id.recv == "reader" || id.recv == "ttlvReader" || id.recv == "xmlReader" || id.recv == "jsonReader")
+	}
+	for _, fn := range c.fns {
+		type use struct {
+			call *ssa.Call
+			dec  ssa.Value
+			id   funcID
+		}
+		var uses []use
+		allInstrs(fn, func(in ssa.Instruction) {
+			call, ok := in.(*ssa.Call)
+			if !ok || len(call.Call.Args) == 0 {
+				return
+			}
+			id := callID(&call.Call)
+			if call.Call.IsInvoke() {
+				if isReaderRecv(id) {
+					uses = append(uses, use{call, call.Call.Value, id})
+				}
+				return
+			}
+			if isReaderRecv(id) {
+				uses = append(uses, use{call, call.Call.Args[0], id})
+				return
+			}
+			if sc := call.Call.StaticCallee(); sc != nil && strings.HasPrefix(id.pkg, modPath) {
+				for _, a := range call.Call.Args {
+					if typeName(a.Type()) == "Decoder" && typePkgPath(a.Type()) == ttlvPath {
+						uses = append(uses, use{call, a, id})
+						return
+					}
+				}
+			}
+		})
+		if len(uses) < 2 {
+			continue
+		}
+		for _, u1 := range uses {
+			sig := u1.call.Call.Signature()
+			res := sig.Results()
+			if res.Len() == 0 || !types.Identical(res.At(res.Len()-1).Type(), errT) {
+				continue
+			}
+			// the error value and its nil-edge
+			var errVal ssa.Value = u1.call
+			if res.Len() > 1 {
+				errVal = nil
+				for _, ref := range *u1.call.Referrers() {
+					if ex, ok := ref.(*ssa.Extract); ok && ex.Index == res.Len()-1 {
+						errVal = ex
+					}
+				}
+			}
+			var okBlock *ssa.BasicBlock
+			if errVal != nil {
+				for _, ref := range *errVal.(interface{ Referrers() *[]ssa.Instruction }).Referrers() {
+					if bo, ok := ref.(*ssa.BinOp); ok && isNilConst(bo.Y) && (bo.Op == token.NEQ || bo.Op == token.EQL) {
+						for _, r2 := range *bo.Referrers() {
+							if iff, ok := r2.(*ssa.If); ok {
+								if bo.Op == token.NEQ {
+									okBlock = iff.Block().Succs[1]
+								} else {
+									okBlock = iff.Block().Succs[0]
+								}
+							}
+						}
+					}
+				}
+			}
+			reach := reachableFrom(u1.call.Block())
+			var offender *ssa.Call
+			for _, u2 := range uses {
+				if u2.call == u1.call || u2.dec != u1.dec {
+					continue
+				}
+				after := false
+				if u2.call.Block() == u1.call.Block() {
+					after = instrIndex(u2.call) > instrIndex(u1.call)
+					if !after {
+						// same block earlier: reachable again only through a cycle
+						for _, s := range u1.call.Block().Succs {
+							if reachableFrom(s)[u1.call.Block()] {
+								after = true
+							}
+						}
+					}
+				} else {
+					after = reach[u2.call.Block()]
+				}
+				if !after {
+					continue
+				}
+				if okBlock != nil && (okBlock.Dominates(u2.call.Block()) || okBlock == u2.call.Block()) {
+					continue
+				}
+				// a loop header test such as `for d.Tag() == tag` re-entered after a checked call in the body
+				if okBlock != nil && reachableOnlyThrough(u1.call.Block(), u2.call.Block(), okBlock) {
+					continue
+				}
+				offender = u2.call
+				break
+			}
+			key := c.key(fn, "failstop:"+u1.id.name)
+			if offender != nil {
+				r.Bad("C02.R8", key, offender.Pos(), "%s can run after %s failed on the same decoder (its error is not tested before): a failed read leaves the binary reader on an unvalidated tail, and the next accessor indexes out of range or reads beyond the enclosing structure", callID(&offender.Call).String(), u1.id.String())
+			} else {
+				r.OK("C02.R8", key, u1.call.Pos(), "later uses of the decoder are dominated by the err == nil edge of %s", u1.id.String())
+			}
+		}
+	}
+}
+
+// reachableOnlyThrough: every path from a to b passes through via.
+func reachableOnlyThrough(a, b, via *ssa.BasicBlock) bool {
+	if a == via {
+		return true
+	}
+	seen := map[*ssa.BasicBlock]bool{a: true}
+	stack := []*ssa.BasicBlock{a}
+	for len(stack) > 0 {
+		x := stack[len(stack)-1]
+		stack = stack[:len(stack)-1]
+		for _, s := range x.Succs {
+			if s == via || seen[s] {
+				continue
+			}
+			if s == b {
+				return false
+			}
+			seen[s] = true
+			stack = append(stack, s)
+		}
+	}
+	return true
+}
+
+// ---------------------------------------------------------------- R9
+
+// r9LengthArith: the extent arithmetic of the binary reader is done in int without narrowing, and
+// paddedLen() >= len() by construction — the facts validate()/value()/Next() and the framing rely on.
+func (c *c02ctx) r9LengthArith() {
+	r, p := c.r, c.p
+	r.Rule("C02.R9", "extent arithmetic of the binary reader: no narrowing conversion, paddedLen() = len() rounded up to a multiple of 8 in int", 3)
+	for _, name := range []string{"len", "paddedLen", "value", "Next", "validate"} {
+		fn := p.Func("ttlv", "ttlvReader", name)
+		key := "ttlv.ttlvReader." + name + "/conversions"
+		if fn == nil {
+			r.Unk("C02.R9", key, token.NoPos, "anchor missing")
+			continue
+		}
+		bad := ""
+		allInstrs(fn, func(in ssa.Instruction) {
+			cv, ok := in.(*ssa.Convert)
+			if !ok {
+				return
+			}
+			from, ok1 := cv.X.Type().Underlying().(*types.Basic)
+			to, ok2 := cv.Type().Underlying().(*types.Basic)
+			if !ok1 || !ok2 || from.Info()&types.IsInteger == 0 || to.Info()&types.IsInteger == 0 {
+				return
+			}
+			size := func(b *types.Basic) int {
+				switch b.Kind() {
+				case types.Int8, types.Uint8:
+					return 8
+				case types.Int16, types.Uint16:
+					return 16
+				case types.Int32, types.Uint32:
+					return 32
+				}
+				return 64
+			}
+			narrow := size(to) < size(from) || (size(to) == size(from) && (to.Info()&types.IsUnsigned) != (from.Info()&types.IsUnsigned))
+			if narrow {
+				bad = fmt.Sprintf("%s -> %s at %s", from.Name(), to.Name(), p.pos(cv.Pos()))
+			}
+		})
+		if bad != "" {
+			r.Bad("C02.R9", key, fn.Pos(), "extent arithmetic narrows an integer (%s): a declared length near 2^32 wraps, the reader accepts a header whose value it cannot hold and later slices out of range", bad)
+		} else {
+			r.OK("C02.R9", key, fn.Pos(), "no narrowing integer conversion")
+		}
+	}
+	// paddedLen idioms
+	if fn := p.Func("ttlv", "ttlvReader", "paddedLen"); fn != nil {
+		ok := false
+		isLen := func(v ssa.Value) bool {
+			cl, ok := v.(*ssa.Call)
+			return ok && callID(&cl.Call).is(ttlvPath, "ttlvReader", "len")
+		}
+		allInstrs(fn, func(in ssa.Instruction) {
+			ret, isRet := in.(*ssa.Return)
+			if !isRet {
+				return
+			}
+			bo, isB := ret.Results[0].(*ssa.BinOp)
+			if !isB {
+				return
+			}
+			// l + padForLen(l, 8)
+			if bo.Op == token.ADD && isLen(bo.X) {
+				if pc, isC := bo.Y.(*ssa.Call); isC && callID(&pc.Call).is(ttlvPath, "", "padForLen") && pc.Call.Args[0] == bo.X {
+					if k, isK := constIntVal(pc.Call.Args[1]); isK && k == 8 {
+						ok = true
+					}
+				}
+			}
+			// (l + 7) &^ 7 in int
+			if bo.Op == token.AND_NOT {
+				if k, isK := constIntVal(bo.Y); isK && k == 7 {
+					if sum, isS := bo.X.(*ssa.BinOp); isS && sum.Op == token.ADD && isLen(sum.X) {
+						if k2, isK2 := constIntVal(sum.Y); isK2 && k2 == 7 {
+							ok = true
+						}
+					}
+				}
+			}
+		})
+		if ok {
+			r.OK("C02.R9", "ttlv.ttlvReader.paddedLen/roundup", fn.Pos(), "paddedLen() is len() rounded up to a multiple of 8, computed in int: paddedLen() >= len()")
+		} else {
+			r.Unk("C02.R9", "ttlv.ttlvReader.paddedLen/roundup", fn.Pos(), "paddedLen() is not one of the recognised round-up idioms (l + padForLen(l, 8), (l+7) &^ 7 on the int returned by len()): paddedLen() >= len() cannot be established")
+		}
 	}
 }
